@@ -102,6 +102,9 @@ public:
   [[nodiscard]]
   Error move_imm_to_reg_arg(InvokeNode* invoke_node, const FuncValue& arg, const Imm& imm_, Out<Reg> out) noexcept;
 
+  //! Extends a narrower GP register passed for a wider integer argument (into a new virtual register).
+  Error move_reg_to_reg_arg(InvokeNode* invoke_node, const FuncValue& arg, const Reg& reg, Out<Reg> out) noexcept;
+
   [[nodiscard]]
   Error move_imm_to_stack_arg(InvokeNode* invoke_node, const FuncValue& arg, const Imm& imm_) noexcept;
 
@@ -362,6 +365,8 @@ Error RACFGBuilder::on_instruction(InstNode* inst, InstControlFlow& control_type
 // a64::RACFGBuilder - OnInvoke
 // ============================
 
+static bool needs_int_extension(TypeId dst_type_id, TypeId src_type_id) noexcept;
+
 Error RACFGBuilder::on_before_invoke(InvokeNode* invoke_node) noexcept {
   const FuncDetail& fd = invoke_node->detail();
   uint32_t arg_count = invoke_node->arg_count();
@@ -393,9 +398,23 @@ Error RACFGBuilder::on_before_invoke(InvokeNode* invoke_node) noexcept {
             // TODO: [ARM] Conversion is not supported.
             return make_error(Error::kInvalidAssignment);
           }
+
+          // A narrower GP register passed for a wider integer parameter is extended (the rule of the x86 backend).
+          if (reg_group == RegGroup::kGp && needs_int_extension(arg.type_id(), cc().virt_reg_by_id(reg.id())->type_id())) {
+            Reg ext_reg;
+            ASMJIT_PROPAGATE(move_reg_to_reg_arg(invoke_node, arg, reg, Out(ext_reg)));
+            invoke_node->_args[arg_index][value_index] = ext_reg;
+          }
         }
         else {
-          ASMJIT_PROPAGATE(move_reg_to_stack_arg(invoke_node, arg, reg));
+          if (reg.is_gp() && needs_int_extension(arg.type_id(), cc().virt_reg_by_id(reg.id())->type_id())) {
+            Reg ext_reg;
+            ASMJIT_PROPAGATE(move_reg_to_reg_arg(invoke_node, arg, reg, Out(ext_reg)));
+            ASMJIT_PROPAGATE(move_reg_to_stack_arg(invoke_node, arg, ext_reg));
+          }
+          else {
+            ASMJIT_PROPAGATE(move_reg_to_stack_arg(invoke_node, arg, reg));
+          }
         }
       }
       else if (op.is_imm()) {
@@ -524,6 +543,55 @@ Error RACFGBuilder::on_invoke(InvokeNode* invoke_node, RAInstBuilder& ib) noexce
   return Error::kOk;
 }
 
+// a64::RACFGBuilder - MoveRegToRegArg
+// ===================================
+
+// An 8-bit or 16-bit register passed for a wider integer parameter, and a signed 32-bit register passed for a signed
+// 64-bit parameter, must be extended. Other 32-bit registers are passed as is (they are zero extended by AArch64).
+static bool needs_int_extension(TypeId dst_type_id, TypeId src_type_id) noexcept {
+  if (!TypeUtils::is_int(dst_type_id) || !TypeUtils::is_int(src_type_id)) {
+    return false;
+  }
+
+  if (TypeUtils::is_gp8(src_type_id) || TypeUtils::is_gp16(src_type_id)) {
+    return TypeUtils::size_of(dst_type_id) > TypeUtils::size_of(src_type_id);
+  }
+
+  return src_type_id == TypeId::kInt32 && dst_type_id == TypeId::kInt64;
+}
+
+Error RACFGBuilder::move_reg_to_reg_arg(InvokeNode* invoke_node, const FuncValue& arg, const Reg& reg, Out<Reg> out) noexcept {
+  Support::maybe_unused(invoke_node);
+
+  TypeId dst_type_id = arg.type_id();
+  TypeId src_type_id = cc().virt_reg_by_id(reg.id())->type_id();
+
+  // Sign extend only when both types are signed, zero extend otherwise.
+  bool sign_extend = (uint32_t(dst_type_id) & 1u) == 0u && (uint32_t(src_type_id) & 1u) == 0u;
+  bool dst_is_64bit = TypeUtils::size_of(dst_type_id) > 4;
+
+  ASMJIT_PROPAGATE(cc()._new_reg(out, dst_is_64bit ? TypeId::kUInt64 : TypeId::kUInt32, nullptr));
+  cc().virt_reg_by_id(out->id())->set_weight(BaseRAPass::kCallArgWeight);
+
+  Gp src = reg.as<Gp>().w();
+  Gp dst = out->as<Gp>();
+
+  if (!sign_extend) {
+    // Writing a W register zero extends to 64 bits.
+    return cc().emit(TypeUtils::is_gp8(src_type_id) ? Inst::kIdUxtb : Inst::kIdUxth, dst.w(), src);
+  }
+
+  if (TypeUtils::is_gp8(src_type_id)) {
+    return cc().emit(Inst::kIdSxtb, dst, src);
+  }
+
+  if (TypeUtils::is_gp16(src_type_id)) {
+    return cc().emit(Inst::kIdSxth, dst, src);
+  }
+
+  return cc().emit(Inst::kIdSxtw, dst, src);
+}
+
 // a64::RACFGBuilder - MoveImmToRegArg
 // ===================================
 
@@ -579,6 +647,12 @@ Error RACFGBuilder::move_reg_to_stack_arg(InvokeNode* invoke_node, const FuncVal
       case 1: return cc().strb(reg.as<Gp>().w(), stack_ptr);
       case 2: return cc().strh(reg.as<Gp>().w(), stack_ptr);
       case 4: return cc().str(reg.as<Gp>().w(), stack_ptr);
+      case 8:
+        // A 32-bit register passed as is for a 64-bit integer parameter is zero extended - store all 8 bytes of the slot.
+        if (TypeUtils::is_int(arg.type_id())) {
+          return cc().str(reg.as<Gp>().x(), stack_ptr);
+        }
+        [[fallthrough]];
       default: return cc().str(reg.as<Gp>(), stack_ptr);
     }
   }
